@@ -100,10 +100,110 @@ fn pick_distinct(rng: &mut SplitMix64, k: usize, n: usize) -> Vec<usize>
     p
 }
 
+/// One `condrun` request for the conditional gate at position `pos` (>= 1) of `ops`, from the execution trace: the situation
+/// just before it (ranges, decoded basis states, raw ids, REGISTER) + the operation; answer = the situation just after
+/// (+ the register after the final measure_all if `post` is given).  The register of the request is "the register contents at
+/// that point of the run": `execute*` starts every run from a zeroed register, so it is the traced register restricted to the
+/// bits that operations of THIS run have written so far (on a correct implementation the restriction changes nothing; a bit
+/// that is set without having been written in this run - e.g. left over from an earlier run of the same object - is not part
+/// of the register contents the decision has to be taken from, and shows as a disagreement with the model and the spec).
+/// `again`: the trace is that of a second execution of the same `Circuit` object (tag in the request kind: `condrun2`).
+fn emit_cond(out: &mut Out, vector: bool, nq: usize, ops: &[Op], trace: &[q1tsim::verif::TraceEntry], pos: usize, control: &[usize], target: u64,
+    g: &str, bits: &[usize], post: Option<&[usize]>, again: bool) -> bool
+{
+    let (before, after) = (&trace[pos - 1], &trace[pos]);
+    let (dec_b, dec_a) = (decode(nq, &before.snapshot), decode(nq, &after.snapshot));
+    if let (Some((cb, sb)), Some((ca, sa))) = (dec_b, dec_a)
+    {
+        // raw representation ids: equal text <=> equal id
+        let (rb, ra) = (snapshot_ranges(&before.snapshot), snapshot_ranges(&after.snapshot));
+        let mut texts: Vec<String> = vec![];
+        let mut id = |t: &String| -> usize { if let Some(i) = texts.iter().position(|x| x == t) { i } else { texts.push(t.clone()); texts.len() - 1 } };
+        let ids_b: Vec<usize> = rb.iter().map(|(_, t)| id(t)).collect();
+        let ids_a: Vec<usize> = ra.iter().map(|(_, t)| id(t)).collect();
+        let wm = written_mask(&ops[..pos]);
+        let reg: Vec<u64> = before.cstate.iter().map(|w| w & wm).collect();
+        let req = format!("{} {} {} | counts {} | states {} | reg {} | cond {} ; {} ; {} {} | post {} | ids {} ; {}",
+            if again { "condrun2" } else { "condrun" },
+            if vector { "v" } else { "s" }, nq, js(&cb), sb.iter().map(|q| qs_text(q)).collect::<Vec<_>>().join(" "),
+            ju(&reg), js(control), target, g, js(bits), match post { Some(p) => js(p), None => "-".to_string() }, js(&ids_b), js(&ids_a));
+        let ans = format!("ok counts {} | states {} | reg {} | final {}", js(&ca),
+            sa.iter().map(|q| qs_text(q)).collect::<Vec<_>>().join(" "), ju(&after.cstate),
+            if post.is_some() { ju(&trace[pos + 1].cstate) } else { "-".to_string() });
+        out.case(&req, &ans);
+        true
+    }
+    else { false }
+}
+
+/// Feedback circuit, executed AGAIN on the same object: X-preparation (basis states), then a conditional gate that reads
+/// classical bits BEFORE the measurement that writes them in this run, then H on some qubits and a measure_all into those
+/// very bits (so that the register a run leaves behind differs from shot to shot), then possibly a second conditional gate on
+/// the bits now written, and the final measure_all.  The circuit is executed once (other seed, now and then the other
+/// representation), then again on the same object with the same number of shots: the requests come from the SECOND run.
+fn feedback_case(out: &mut Out, rng: &mut SplitMix64, skipped: &mut usize)
+{
+    let vector = rng.coin();
+    let nq = 1 + rng.below(4) as usize;
+    let nc = nq + 1 + rng.below(5) as usize;
+    let shots = 1 + rng.below(if thorough() { 24 } else { 12 }) as usize;
+    let mut ops = vec![Op::Barrier(vec![0])];
+    for q in 0..nq { if rng.coin() { ops.push(Op::Gate("X", vec![q])); } }
+    // now and then one bit IS written before the conditional gate
+    if rng.below(4) == 0 { ops.push(Op::Measure(rng.below(nq as u64) as usize, rng.below(nc as u64) as usize)); }
+    let p = ops.len();
+    let k = 1 + rng.below(3.min(nc) as u64) as usize;
+    let control = pick_distinct(rng, k, nc);
+    let target = if rng.below(4) == 0 { 0 } else { 1 + rng.below((1u64 << k) - 1) };
+    let pick_gate = |rng: &mut SplitMix64| -> (&'static str, usize) {
+        let lib: [(&'static str, usize); 6] = [("X", 1), ("X", 1), ("Y", 1), ("CX", 2), ("Swap", 2), ("KronXCX", 3)];
+        let cands: Vec<(&'static str, usize)> = lib.iter().cloned().chain(USER_GATES.iter().cloned().filter(|_| vector)).filter(|(_, a)| *a <= nq).collect();
+        *rng.pick(&cands)
+    };
+    let (g, arity) = pick_gate(rng);
+    let bits = pick_distinct(rng, arity, nq);
+    ops.push(Op::Cond(control.clone(), target, g, bits.clone()));
+    for q in 0..nq { if rng.below(3) != 0 { ops.push(Op::H(q)); } }
+    // measure into the control bits first
+    let mut cbits = control.clone();
+    for c in pick_distinct(rng, nc, nc) { if !cbits.contains(&c) { cbits.push(c); } }
+    cbits.truncate(nq);
+    ops.push(Op::MeasureAll(cbits.clone()));
+    let mut second = None;
+    if rng.coin()
+    {
+        let (g2, a2) = pick_gate(rng);
+        let b2 = pick_distinct(rng, a2, nq);
+        let k2 = 1 + rng.below(2.min(nc) as u64) as usize;
+        let c2: Vec<usize> = if rng.coin() { control.clone() } else { pick_distinct(rng, k2, nc) };
+        let t2 = rng.below(1 << c2.len());
+        second = Some((ops.len(), c2.clone(), t2, g2, b2.clone()));
+        ops.push(Op::Cond(c2, t2, g2, b2));
+    }
+    let post = pick_distinct(rng, nq, nc);
+    ops.push(Op::MeasureAll(post.clone()));
+    let (seed1, seed) = (rng.next(), rng.next());
+    let first_vector = if rng.below(5) == 0 && !ops.iter().any(|op| match op { Op::Cond(_, _, g, _) => is_user_gate(g), _ => false }) { !vector } else { vector };
+    match run_circuit_again(vector, first_vector, nq, nc, shots, &ops, seed1, seed)
+    {
+        Outcome::Done { trace, .. } => {
+            if !emit_cond(out, vector, nq, &ops, &trace, p, &control, target, g, &bits, None, true) { *skipped += 1; }
+            if let Some((p2, c2, t2, g2, b2)) = second
+            {
+                if !emit_cond(out, vector, nq, &ops, &trace, p2, &c2, t2, g2, &b2, Some(&post[..]), true) { *skipped += 1; }
+            }
+        },
+        Outcome::Panic => { out.case(&format!("condrun-unexpected-panic again: {}", ops_text(&ops)), "panic"); },
+        Outcome::RunErr(e) | Outcome::BuildErr(e) => { out.case(&format!("condrun-unexpected-error again: {}", ops_text(&ops)), &format!("err {}", e)); }
+    }
+}
+
 /// One circuit: randomise register and per-shot basis states (H, X, measure, measure_all), then one
 /// conditional gate, then measure_all.  Request = the observed situation just before the conditional
 /// gate (from the trace hook) + the operation; answer = the situation just after + the final register.
-fn cond_case(out: &mut Out, rng: &mut SplitMix64, skipped: &mut usize, zero_shots: bool)
+/// `again`: the circuit is executed once with another seed, then again on the SAME object (same number of shots); the
+/// requests are built from the trace of the second run.
+fn cond_case(out: &mut Out, rng: &mut SplitMix64, skipped: &mut usize, zero_shots: bool, again: bool)
 {
     let vector = rng.coin();
     let nq = 1 + rng.below(5) as usize;
@@ -155,9 +255,14 @@ fn cond_case(out: &mut Out, rng: &mut SplitMix64, skipped: &mut usize, zero_shot
     // now and then a target the selected bits cannot spell (a bit at position >= control.len()): it must match NO shot,
     // however its low bits read
     if k < 60 && rng.below(8) == 0 { target |= 1u64 << (k as u32 + rng.below(3) as u32); }
-    let (g, arity) = match rng.below(12) { 0 | 1 | 2 | 3 => ("X", 1), 4 => ("Y", 1), 5 => ("Z", 1), 6 | 7 => ("CX", 2), 8 => ("Swap", 2), 9 => ("CCX", 3),
-        10 => ("KronXCX", 3), _ => ("KronCXX", 3) };   // tensor products of factors of different width
-    let (g, arity) = if arity > nq || (g == "CCX" && !vector) { ("X", 1) } else { (g, arity) };
+    let (g, arity) = match rng.below(16) { 0 | 1 | 2 | 3 => ("X", 1), 4 => ("Y", 1), 5 => ("Z", 1), 6 | 7 => ("CX", 2), 8 => ("Swap", 2), 9 => ("CCX", 3),
+        10 => ("KronXCX", 3), 11 => ("KronCXX", 3),   // tensor products of factors of different width
+        _ => {
+            // USER-DEFINED gates (only matrix() provided: default kernels of the Gate trait), vector backend only
+            let fit: Vec<(&'static str, usize)> = USER_GATES.iter().cloned().filter(|(_, a)| *a <= nq).collect();
+            if fit.is_empty() { ("X", 1) } else { *rng.pick(&fit) }
+        } };
+    let (g, arity) = if arity > nq || ((g == "CCX" || is_user_gate(g)) && !vector) { ("X", 1) } else { (g, arity) };
     let bits = pick_distinct(rng, arity, nq);
     ops.push(Op::Cond(control.clone(), target, g, bits.clone()));
     // optionally: something that rewrites selected bits WITHOUT a collapsing measurement (peeks), or with one, and then
@@ -194,7 +299,8 @@ fn cond_case(out: &mut Out, rng: &mut SplitMix64, skipped: &mut usize, zero_shot
     let post = pick_distinct(rng, nq, nc);
     ops.push(Op::MeasureAll(post.clone()));
 
-    match run_circuit(vector, nq, nc, shots, &ops, seed)
+    let outcome = if again { let s1 = rng.next(); run_circuit_again(vector, vector, nq, nc, shots, &ops, s1, seed) } else { run_circuit(vector, nq, nc, shots, &ops, seed) };
+    match outcome
     {
         Outcome::Done { trace, .. } => {
             // one request per conditional gate: (position in ops, control, target, gate, bits, is the final measure_all next?)
@@ -202,25 +308,8 @@ fn cond_case(out: &mut Out, rng: &mut SplitMix64, skipped: &mut usize, zero_shot
             if let Some((p2, c2, t2, g2, b2)) = second.clone() { conds.push((p2, c2, t2, g2, b2, true)); }
             for (pos, control, target, g, bits, has_final) in conds
             {
-            let (before, after, last) = (&trace[pos - 1], &trace[pos], &trace[pos + 1]);
-            let (dec_b, dec_a) = (decode(nq, &before.snapshot), decode(nq, &after.snapshot));
-            if let (Some((cb, sb)), Some((ca, sa))) = (dec_b, dec_a)
-            {
-                // raw representation ids: equal text <=> equal id
-                let (rb, ra) = (snapshot_ranges(&before.snapshot), snapshot_ranges(&after.snapshot));
-                let mut texts: Vec<String> = vec![];
-                let mut id = |t: &String| -> usize { if let Some(i) = texts.iter().position(|x| x == t) { i } else { texts.push(t.clone()); texts.len() - 1 } };
-                let ids_b: Vec<usize> = rb.iter().map(|(_, t)| id(t)).collect();
-                let ids_a: Vec<usize> = ra.iter().map(|(_, t)| id(t)).collect();
-                let req = format!("condrun {} {} | counts {} | states {} | reg {} | cond {} ; {} ; {} {} | post {} | ids {} ; {}",
-                    if vector { "v" } else { "s" }, nq, js(&cb), sb.iter().map(|q| qs_text(q)).collect::<Vec<_>>().join(" "),
-                    ju(&before.cstate), js(&control), target, g, js(&bits), if has_final { js(&post) } else { "-".to_string() }, js(&ids_b), js(&ids_a));
-                let ans = format!("ok counts {} | states {} | reg {} | final {}", js(&ca),
-                    sa.iter().map(|q| qs_text(q)).collect::<Vec<_>>().join(" "), ju(&after.cstate),
-                    if has_final { ju(&last.cstate) } else { "-".to_string() });
-                out.case(&req, &ans);
-            }
-            else { *skipped += 1; }
+                let fin = if has_final { Some(&post[..]) } else { None };
+                if !emit_cond(out, vector, nq, &ops, &trace, pos, &control, target, g, &bits, fin, again) { *skipped += 1; }
             }
         },
         Outcome::Panic if zero_shots => {
@@ -279,7 +368,9 @@ fn main()
     // circuit level
     let mut skipped = 0;
     let ncirc = if thorough() { 12000 } else { 2500 };
-    for k in 0..ncirc { cond_case(&mut out, &mut rng, &mut skipped, k % 50 == 49); }
+    for k in 0..ncirc { cond_case(&mut out, &mut rng, &mut skipped, k % 50 == 49, k % 50 != 49 && k % 5 == 4); }
+    // feedback circuits executed again on the same object
+    for _ in 0..(if thorough() { 4000 } else { 800 }) { feedback_case(&mut out, &mut rng, &mut skipped); }
     let n = out.finish();
     eprintln!("c07: {} cases ({} circuits skipped: state not a basis state)", n, skipped);
 }
